@@ -16,10 +16,7 @@ var ovNamesShort = [4]string{"none", "path", "method", "path+method"}
 
 // patClass describes the first constant of the effective registered pattern relative to the 3-byte key.
 func patClass(e entry, c cfgT) string {
-	p := patterns[e.pat]
-	if e.kind == kGRP {
-		p = "/ab" + p
-	}
+	p := regPattern(e)
 	if !c.StrictRouting && len(p) > 1 {
 		p = strings.TrimRight(p, "/")
 		if p == "" {
@@ -67,8 +64,17 @@ func bucketLabel(app *fiber.App, ci, m, p int) string {
 
 // bucketMiss: entry e handles (m, p) but its route sits in a specific bucket other than the one the path selects.
 func bucketMiss(ci int, e entry, m, p int) bool {
-	k := loneKey[ci][e.kind][e.pat][m]
-	return k != 0 && k != pathHash[ci][p]
+	miss := false
+	for u := 0; u < kindUnits(e.kind); u++ {
+		if !unitHandles(ci, e, u, m, int(pathCanon[ci][p])) {
+			continue
+		}
+		if k := loneKey[ci][e.kind][e.pat][u][m]; k == 0 || k == pathHash[ci][p] {
+			return false
+		}
+		miss = true
+	}
+	return miss
 }
 
 // missName separates the two ways a matching route can be outside the selected bucket: the request
@@ -83,8 +89,11 @@ func missName(ci, p int) string {
 // regPattern is the pattern text a registration hands to the router (what addRoute's duplicate test sees).
 func regPattern(e entry) string {
 	p := patterns[e.pat]
-	if e.kind == kGRP {
+	switch e.kind {
+	case kGRP, kGUSE:
 		return "/ab" + p
+	case kUSE0:
+		return "/"
 	}
 	return p
 }
@@ -176,7 +185,7 @@ func (ws *wstate) classify(app *fiber.App, ci int, tbl []entry, mi, pi int, ref 
 			allMiss, any := true, false
 			var first entry
 			for _, e := range tbl {
-				if e.kind != kUSE && entryHandles(ci, e, om, p) {
+				if !kindIsUse(e.kind) && entryHandles(ci, e, om, p) {
 					if !any {
 						first = e
 					}
@@ -185,7 +194,7 @@ func (ws *wstate) classify(app *fiber.App, ci int, tbl []entry, mi, pi int, ref 
 				}
 			}
 			for i, e := range tbl {
-				if e.kind == kUSE || !entryHandles(ci, e, om, p) || ws.rt[i][om] == nil {
+				if kindIsUse(e.kind) || !entryHandles(ci, e, om, p) || ws.rt[i][om] == nil {
 					continue
 				}
 				for j := range tbl {
@@ -201,7 +210,7 @@ func (ws *wstate) classify(app *fiber.App, ci int, tbl []entry, mi, pi int, ref 
 			}
 		}
 		_ = m
-		return fmt.Sprintf("end-of-chain exp=%d got=%d allow-missing=%v allow-extra=%v%s override=%s", ref.status, o.status, allowNames(missing), allowNames(extra), badAllow(o), ovNamesShort[ov]),
+		return fmt.Sprintf("end-of-chain exp=%d got=%d allow-missing=%v allow-extra=%v%s override=%s", ref.status, o.status, allowNames(ci, missing), allowNames(ci, extra), badAllow(o), ovNamesShort[ov]),
 			"no endpoint matches: status / Allow set differ from '404, or 405 with exactly the other methods that have a matching endpoint'"
 	}
 
